@@ -591,6 +591,13 @@ class App(falcon.app.App):
 
             req_succeeded = False
 
+            # NOTE: Render the response that was composed by the error
+            #   handler; should that fail as well, fall back to an empty body.
+            try:
+                data = await resp.render_body()
+            except Exception:
+                data = b''
+
         resp_status: int = resp.status_code
         default_media_type: Optional[str] = self.resp_options.default_media_type
 
